@@ -75,9 +75,16 @@ def main():
     rep = {'seeds': len(out), 'caught_quick': sum(r.get('caught_by') == 'quick' for r in out),
            'caught_thorough_only': sum(r.get('caught_by') not in (None, 'quick') for r in out),
            'missed': [r['seed'] for r in out if 'caught_by' not in r], 'results': out}
-    if not a.only:
-        with open(os.path.join(VERIF, 'selftest', 'seeds_report.json'), 'w') as f:
-            json.dump(rep, f, indent=1)
+    path = os.path.join(VERIF, 'selftest', 'seeds_report.json')
+    if a.only and os.path.exists(path):          # merge a partial re-run into the existing report
+        old = {r['seed']: r for r in json.load(open(path))['results']}
+        old.update({r['seed']: r for r in out})
+        allr = [old[k] for k in sorted(old)]
+        rep = {'seeds': len(allr), 'caught_quick': sum(r.get('caught_by') == 'quick' for r in allr),
+               'caught_thorough_only': sum(r.get('caught_by') not in (None, 'quick') for r in allr),
+               'missed': [r['seed'] for r in allr if 'caught_by' not in r], 'results': allr}
+    with open(path, 'w') as f:
+        json.dump(rep, f, indent=1)
     print(json.dumps({k: v for k, v in rep.items() if k != 'results'}))
     subprocess.run(['git', 'checkout', '--', 'evidence/replays'], cwd=VERIF, capture_output=True)
     return 0 if not rep['missed'] else 1
